@@ -14,7 +14,7 @@ Scenario format (all plain JSON):
   inject   : {...}                        fault injection at loop iteration k (C16)
   wal      : {...}                        WAL shim settings (C17)
 
-handler ops : ['sleep', d] ['yield', k] ['disp', bus, type, mode, flags] ['awaitall'] ['raise', kind]
+handler ops : ['sleep', d] ['yield', k] ['disp', bus, type, mode, flags] ['awaitall'] ['raise', kind] ['fan', bus, n, retry]
               ['readbus'] ;  type = int | 'n' (= E[depth+1]) ; mode = 'await' | 'later' | 'ff'
 actor ops   : ['disp', bus, type, flags] ['redisp', root, bus] ['await', root] ['awaitdesc', root, k]
               ['sleep', d] ['yield', k] ['idle', bus, timeout] ['stop', bus, timeout, clear]
@@ -392,7 +392,7 @@ def make_handler(w: World, hi: int, hspec: dict):
             return o
         return hi
 
-    def do_dispatch(ev, me, op, pend):
+    def do_dispatch(ev, me, op, pend, refused=None):
         _, tb, typ, mode = op[:4]
         flags = op[4] if len(op) > 4 else None
         if ev.depth >= w.maxdepth or w.ndisp >= w.cap:
@@ -409,11 +409,29 @@ def make_handler(w: World, hi: int, hspec: dict):
             rec['ok'] = False
             rec['exc'] = type(ex).__name__
             w.rec('disp-rej', by=list(me), ev=tag, exc=type(ex).__name__)
+            if refused is not None:
+                refused.append(tag)
             return None
         rec['ok'] = True
         rec['same'] = got is child
         w.children.setdefault(ev.tag, []).append(tag)
         return tag
+
+    def do_redispatch(ev, me, tb, tag):
+        """the handler hands a child object the bus refused earlier to the same bus again"""
+        child = w.events[tag]
+        rec = w.rec('disp', by=list(me), ev=tag, bus=bus_name(w.sc, tb), mode='ff', xp=None, again=True)
+        try:
+            got = w.buses[tb].dispatch(child)
+        except Exception as ex:
+            rec['ok'] = False
+            rec['exc'] = type(ex).__name__
+            w.rec('disp-rej', by=list(me), ev=tag, exc=type(ex).__name__)
+            return False
+        rec['ok'] = True
+        rec['same'] = got is child
+        w.children.setdefault(ev.tag, []).append(tag)
+        return True
 
     async def do_await(me, tag):
         child = w.events[tag]
@@ -460,6 +478,19 @@ def make_handler(w: World, hi: int, hspec: dict):
                     for tag in pend:
                         await do_await(me, tag)
                     pend = []
+                elif k == 'fan':
+                    # fan out op[2] fire-and-forget children to one bus; the bus may refuse some (back-pressure). With op[3] the
+                    # handler does what the error message says: waits for the accepted ones, then dispatches the refused objects again
+                    okd, refused = [], []
+                    for _ in range(op[2]):
+                        tag = do_dispatch(ev, me, ['disp', op[1], 'n', 'ff'], pend, refused)
+                        if tag is not None:
+                            okd.append(tag)
+                    if op[3] and refused:
+                        for tag in okd:
+                            await do_await(me, tag)
+                        for tag in refused:
+                            do_redispatch(ev, me, op[1], tag)
                 elif k == 'raise':
                     if op[1] == 'ITO':
                         # the handler's own inner timeout expires: a TimeoutError chained from a CancelledError
